@@ -146,6 +146,29 @@ void harness(void)
 		if (wpi && gk < sz.nrows) ASSERT(NUMV(pi[gk]) == NUMV(C->pi[gk]), "C01: pi[k] returned is the cached pi[k] for every k");
 		if (wsl && gk < sz.nrows) ASSERT(NUMV(sl[gk]) == NUMV(C->slack[gk]), "C01: slack[k] returned is the cached slack[k] for every k");
 	}
+#elif defined(FN_getbasis)
+	/* C12/C14: the basis handed to the caller is the solver's basis, status by status */
+	O = qsv_mk_lpdata(&sz, QF_STRUCTMAP | QF_ROWMAP | QF_RANGE); lp = qsv_mk_lpinfo(O);
+	{
+		char *cstat = qsv_alloc(sz.nstruct ? sz.nstruct : 1), *rstat = qsv_alloc(sz.nrows ? sz.nrows : 1);
+		IN_BOOL(has_range); IN_INT(basisid);
+		GHOST_COL(sz); GHOST_ROW(sz);
+		if (!has_range) O->rangeval = 0;
+		lp->basisid = basisid; lp->vstat = qsv_alloc(sizeof(int) * (size_t) (sz.colsize ? sz.colsize : 1));
+		qsv_wf_struct_all(O); qsv_wf_rowmap_all(O);
+		{
+			int vc = lp->vstat[O->structmap[gc]], vr = lp->vstat[O->rowmap[gr]], ranged = O->rangeval != 0 && NUMV(O->rangeval[gr]) != 0;
+			rv = mpq_ILLlib_getbasis(lp, cstat, rstat);
+			ASSERT(!(basisid == -1) || rv != 0, "C07/C12: no basis is reported for an unsolved or modified problem");
+			if (rv == 0) {
+				ASSERT(cstat[gc] == (vc == STAT_BASIC ? QS_COL_BSTAT_BASIC : vc == STAT_LOWER ? QS_COL_BSTAT_LOWER : vc == STAT_UPPER ? QS_COL_BSTAT_UPPER : QS_COL_BSTAT_FREE) && vc >= STAT_BASIC && vc <= STAT_ZERO,
+					"C12: every column status returned is the solver's status of that column (through the column map)");
+				ASSERT(rstat[gr] == (vr == STAT_BASIC ? QS_ROW_BSTAT_BASIC : (vr == STAT_UPPER && ranged) ? QS_ROW_BSTAT_UPPER : QS_ROW_BSTAT_LOWER) && (vr == STAT_BASIC || vr == STAT_LOWER || vr == STAT_UPPER),
+					"C12: every row status returned is the status of the row's logical column (at upper only for ranged rows)");
+			}
+			COVER_MUST(rv == 0 && rstat[gr] == QS_ROW_BSTAT_UPPER, "ranged_row_at_upper");
+		}
+	}
 #else
 #error "select a function with -DFN_<name>"
 #endif
